@@ -151,7 +151,9 @@ func process1ListMerge(obj []any, mergeFrom *Document, mergeFromDocs []*Document
 		return nil, err
 	}
 
-	return mergeList(obj, in)
+	// Merge into a copy: entries matched by $match are patched in place, and
+	// the host list's entries are still part of the document being read.
+	return mergeList(copyTree(obj).([]any), copyTree(in))
 }
 
 func process1ListReplace(obj []any, mergeFrom *Document, mergeFromDocs []*Document, m any, depth int) (any, error) {
